@@ -3,6 +3,7 @@ package main
 import (
 	"fmt"
 	"go/ast"
+	"go/token"
 	"go/constant"
 	"go/types"
 	"sort"
@@ -272,8 +273,43 @@ func runC02(r *Run) {
 			}
 		})
 		r.Floor("R3", "SetAccount calls in StateDB.Commit", n, 1)
+		// every dirty object is written: from the lookup of the dirty object no path reaches the next
+		// iteration or a success return without SetAccount/DeleteAccount
+		var lookups []ssa.Instruction
+		eachInstr(commit, func(in ssa.Instruction) {
+			if l, ok := in.(*ssa.Lookup); ok {
+				if _, f, ok := fieldOfAddr(addrOfLoad(l.X)); ok && f == "stateObjects" {
+					lookups = append(lookups, in)
+				}
+			}
+		})
+		r.Floor("R3", "dirty-object lookups in StateDB.Commit", len(lookups), 1)
+		isWrite := isCallMatching(func(ci CallInfo) bool {
+			return ci.Invoke && (ci.Name == "SetAccount" || ci.Name == "DeleteAccount") && errHandled(ci.Instr)
+		})
+		for i, l := range lookups {
+			lb := l.Block()
+			w := PathQuery{Fn: commit, Start: l, Block: isWrite, Target: func(in ssa.Instruction) bool {
+				if isSuccessExit(in) {
+					return true
+				}
+				// back at the loop head (a block that dominates the lookup and is reached again)
+				b := in.Block()
+				return in == b.Instrs[0] && b != lb && dominates(b, lb) && len(b.Preds) > 1
+			}}.Search()
+			r.Check(w == nil, "R3", fmt.Sprintf("%s#every-dirty-account-written-%d", fnID(commit), i+1), P.Pos(instrPos(l)), "each dirty object reaches SetAccount or DeleteAccount",
+				"StateDB.Commit can skip a journal-dirty account (no SetAccount/DeleteAccount on some path): because precompiles flush with Commit in the middle of a transaction, a skipped write leaves the bank balance out of sync with the EVM view and the difference is minted or burned later", P.witness(w)...)
+		}
 	} else {
 		r.Bad("R3", "anchor/StateDB.Commit", "", "StateDB.Commit not found")
+	}
+	if ok2 {
+		isSB := isCallMatching(func(ci CallInfo) bool {
+			return ci.Static == setBal && errHandled(ci.Instr) && isParam(argN(ci.Instr, 1), "addr") && backSlice(argN(ci.Instr, 2)).HasParam("account")
+		})
+		w := Precedes(setAcc, isSB, isSuccessExit, nil)
+		r.Check(w == nil, "R3", fnID(setAcc)+"#always-sets-balance", P.Pos(fnPos(setAcc)), "SetAccount writes the balance on every success path",
+			"Keeper.SetAccount can return success without SetBalance(ctx, addr, account.Balance): the EVM-side balance change of that account never reaches the bank (value is created or destroyed)", P.witness(w)...)
 	}
 	if ok1 {
 		fn := setBal
@@ -506,4 +542,12 @@ func writesDiscardedCacheCtx(c ssa.CallInstruction) bool {
 		return true
 	}
 	return false
+}
+
+// addrOfLoad: for v = *p returns p, else nil.
+func addrOfLoad(v ssa.Value) ssa.Value {
+	if u, ok := v.(*ssa.UnOp); ok && u.Op == token.MUL {
+		return u.X
+	}
+	return nil
 }
